@@ -492,9 +492,6 @@ func (r *Resolver) resolveOne(ctx context.Context, name, typ string) ([]any, err
 		cache.Remove(key)
 		return nil, err
 	}
-	if len(res) == 0 {
-		ttl = 300
-	}
 	v.expiration = timeNow().Add(time.Second * time.Duration(ttl))
 	v.result = res
 	return res, nil
@@ -526,8 +523,12 @@ func (r *Resolver) resolveOneNoCache(ctx context.Context, name, typ string) ([]a
 	var res []any
 	var ttl uint32
 	want := strings.TrimSuffix(name, ".")
-	for _, a := range result.Answer {
-		if ttl == 0 || ttl > a.TTL {
+	if len(result.Answer) == 0 {
+		// Nothing to take a TTL from.
+		ttl = 300
+	}
+	for i, a := range result.Answer {
+		if i == 0 || ttl > a.TTL {
 			ttl = a.TTL
 		}
 		name := strings.TrimSuffix(a.Name, ".")
